@@ -148,6 +148,11 @@ def build_and_audit(prop, tier, extra_targets=()):
         rc, log = run_cmd(cmd, cwd=LEAN, timeout=1500)
         res["cmds"].append("cd lean && " + " ".join(cmd))
         res["driver"] = rc == 0 and os.path.exists(DRIVER)
+        if res["driver"]:
+            # private copy: another build may relink the binary while this check is using it
+            priv = os.path.join(LEAN, ".lake", "build", "bin", "driver-%d" % os.getpid())
+            shutil.copy2(DRIVER, priv)
+            res["driver_path"] = priv
         if rc != 0:
             res["log"] += log
         cmd = ["lake", "build", target] + list(extra_targets)
@@ -226,6 +231,7 @@ class Driver:
 
     def __init__(self):
         self.available = os.path.exists(DRIVER)
+        self.path = DRIVER
 
     def ask(self, lines, chunk=200000):
         if not self.available:
@@ -233,7 +239,7 @@ class Driver:
         res = []
         for i in range(0, len(lines), chunk):
             part = lines[i:i + chunk]
-            p = subprocess.run([DRIVER], input=("\n".join(part) + "\n").encode(), stdout=subprocess.PIPE, stderr=subprocess.PIPE, timeout=3600)
+            p = subprocess.run([self.path], input=("\n".join(part) + "\n").encode(), stdout=subprocess.PIPE, stderr=subprocess.PIPE, timeout=3600)
             if p.returncode != 0:
                 raise RuntimeError("driver failed: " + p.stderr.decode()[-300:])
             ans = p.stdout.decode().split("\n")
